@@ -10,7 +10,7 @@ m = {
     "setup_cmd": "./setup.sh",
     "hooks": {
         "guard": "verif",
-        "enable": "no source hooks are committed in /repo: checks build the current tree with `go build -tags verif -overlay <generated>`; the overlay holds export shims (//go:build verif) and rewritten copies of pkg/{coordinator,discovery,explore,sidecar,shard} produced by /verif/rewriter from the working tree at check time",
+        "enable": "no source hooks are committed in /repo: checks build the current tree with `go build -tags verif -overlay <generated>`; the overlay holds export shims (//go:build verif) and rewritten copies of pkg/{coordinator,discovery,explore,sidecar,shard,shard/kubernetes,target,scrape,prom} produced by /verif/rewriter from the working tree at check time",
         "baseline_off_cmd": "cd /repo && GOFLAGS=-mod=mod GOPROXY=off GOSUMDB=off GOTOOLCHAIN=local go test -json -vet=off -count=1 -timeout 25m ./...",
         "source_commits": [],
         "add_only": True,
